@@ -15,6 +15,14 @@ import StorageModel.Generated.CrudReturns
   `Generated.crudReturns` — regenerated from the source by /verif/extract/returns.go on every run —
   says the Go code does there.  Spec: StorageModel/Tx/Spec.lean.
 
+  The model includes custom boltz.Constraint implementations registered with AddConstraint on the
+  parent and on the child store, which veto chosen (stage, id) pairs through the IndexingContext's
+  error holder in ProcessBeforeUpdate / ProcessAfterUpdate / ProcessBeforeDelete, and the way that
+  holder travels (`ixStage`: chained contexts, parent store first, a level skipped when the holder has
+  an error; the entity bucket as holder in Create / Update, shared with the parent bucket by
+  PersistContext.GetParentContext; nothing written once it has an error; a fresh holder returned by
+  processDeleteConstraints), as well as child data created over an existing plain parent entity.
+
   The theorems are about `Generated.crudReturns`, i.e. about the return paths the code has NOW.
   bbolt's rollback itself is modelled, not verified (`rollback` in Tx/Db.lean restores the database
   and drops the OnCommit queue; the harness compares the real bucket tree before and after).
@@ -37,13 +45,24 @@ theorem delivery_is_expected :
     Generated.adapterShapes = ["entityListenerAdapter", "entityFunctionListenerAdapter", "untypedEventListenerWrapper"].map expectedAdapter := by
   decide
 
+/-- Obligation on regenerated data: how the error holder travels (boltz/indexes.go, base.go,
+    typed_bucket.go, store_crud.go) has the modelled shape — newIndexingContext chains the parent store's
+    context with the same holder; the three Process* functions run the parent context first and their own
+    constraints only while the holder is empty; ProceedWithSet refuses to write once the holder has an
+    error; stage order in Create / Update / processDeleteConstraints.  (That GetParentContext lets the
+    parent bucket record into the child bucket's holder is the table field `persistSharesHolder`.) -/
+theorem holder_plumbing_is_expected :
+    Generated.holderFlags.all (·.2) = true ∧ Generated.holderFlags.length = 10 := by
+  decide
+
 /-- environments whose return table is the one regenerated from the code (registrations and the
     number of tx-complete listeners are arbitrary) -/
 def FromCode (env : Env) : Prop := env.t = Generated.crudReturns
 
 theorem FromCode.expected {env : Env} (h : FromCode env) : env.t = expectedReturns := h.trans table_is_expected
 
-example : FromCode { regsP := [.constraint true [(.deleted, "a")]], regsC := [], txListeners := 1, t := Generated.crudReturns } := rfl
+example : FromCode { regsP := [.constraint true [(.deleted, "a")]], regsC := [], txListeners := 1, t := Generated.crudReturns
+                     ixP := [[(.beforeUpdate, "a")]], ixC := [[(.beforeDelete, "b"), (.afterUpdate, "a")]] } := rfl
 
 /-! ## every failure of a store operation reaches the caller -/
 
@@ -55,8 +74,10 @@ theorem raised_only_grows (env : Env) (h : FromCode env) (fault : Fault) (o : Op
 /-- **C07, error propagation (all operations, all states, all registrations, every injected storage
     fault, every stage).**  If anything was raised while the operation ran — by a validation, by the
     storage layer (unusable key, injected FillEntity / PersistEntity error), by an index (duplicate,
-    null, missing fk target, referenced entity), by a vetoing constraint in the parent or the child
-    flow, by the query parser — the operation does not report success. -/
+    null, missing fk target, referenced entity), by a vetoing entity constraint in the parent or the
+    child flow, by a custom index-stage constraint of the parent or the child store through the error
+    holder (before the update, after the write, before the delete), by the query parser — the
+    operation does not report success. -/
 theorem op_error_surfaces (env : Env) (h : FromCode env) (fault : Fault) (o : Op) (st : TxSt)
     (hr : (runOp env fault o st).1.raised ≠ st.raised) : (runOp env fault o st).2 ≠ .ok :=
   fun hok => hr ((runOp_ghost env h.expected fault o st).2.2 hok)
@@ -76,6 +97,15 @@ theorem op_failure_kind_surfaces (env : Env) (h : FromCode env) (fault : Fault) 
 example : OpFails { regsP := [], regsC := [.constraint false [(.deleted, "c1")]], txListeners := 0, t := Generated.crudReturns }
     [("c1", { f := ⟨"n", [], none⟩, child := some "k" })] (.delete .P "c1") :=
   .deleteVetoChildFlow .P "c1" (by decide) (by decide)
+
+-- non-vacuity: a custom constraint registered on the CHILD store vetoes the delete of an entity with
+-- child data (delete through the parent store); one on the parent store vetoes an update before the write
+example : OpFails { regsP := [], regsC := [], txListeners := 0, t := Generated.crudReturns, ixC := [[(.beforeDelete, "c1")]] }
+    [("c1", { f := ⟨"n", [], none⟩, child := some "k" })] (.delete .P "c1") :=
+  .deleteIxVetoChild .P "c1" (by decide) (by decide)
+example : OpFails { regsP := [], regsC := [], txListeners := 0, t := Generated.crudReturns, ixP := [[], [(.beforeUpdate, "c1")]] }
+    [("c1", { f := ⟨"n", [], none⟩, child := some "k" })] (.update .C "c1" ⟨"m", [], none⟩ "k") :=
+  .updateIxVetoParent .C "c1" _ _ .beforeUpdate (by decide) (by decide)
 
 /-- **C07, no false success.**  An operation that reports success was accepted by the spec (none of
     its steps was rejected), has had its whole effect and raised nothing. -/
@@ -287,5 +317,45 @@ example :
       .none (.delete .C "c1") (beginTx [("c1", { f := ⟨"n2", [], none⟩, child := some "k1" })] Ctx.empty)).1.raised
         = [.veto .C 0] := by
   decide
+
+/-- DeleteById not testing the error that comes with the child store's change flow (the reading of
+    `changeFlow, err := …processDeleteConstraints(…); if changeFlow != nil {…} else if err != nil {return err}`). -/
+def tableChildConstraintErrorUntested : CrudReturns := { expectedReturns with deleteChildConstraints := .ignore }
+
+def c1Db : Db := [("c1", { f := ⟨"n2", [], none⟩, child := some "k1" })]
+
+/-- Under that table a delete veto raised by a custom constraint registered ON THE CHILD STORE is
+    dropped (one registered on the parent store is raised again by the parent store's own pass): the
+    veto is raised, the delete reports success, the entity is gone. -/
+example :
+    (runOp { regsP := [], regsC := [], txListeners := 0, t := tableChildConstraintErrorUntested, ixC := [[(.beforeDelete, "c1")]] }
+      .none (.delete .P "c1") (beginTx c1Db Ctx.empty)).2 = .ok ∧
+    (runOp { regsP := [], regsC := [], txListeners := 0, t := tableChildConstraintErrorUntested, ixC := [[(.beforeDelete, "c1")]] }
+      .none (.delete .P "c1") (beginTx c1Db Ctx.empty)).1.raised = [.ixVeto .C 0] ∧
+    (runOp { regsP := [], regsC := [], txListeners := 0, t := tableChildConstraintErrorUntested, ixC := [[(.beforeDelete, "c1")]] }
+      .none (.delete .P "c1") (beginTx c1Db Ctx.empty)).1.db = [] ∧
+    (runOp { regsP := [], regsC := [], txListeners := 0, t := tableChildConstraintErrorUntested, ixP := [[(.beforeDelete, "c1")]] }
+      .none (.delete .P "c1") (beginTx c1Db Ctx.empty)).2 = .err (.ixVeto .P 0) := by
+  decide
+
+/-- PersistContext.GetParentContext assigning the holder the other way round: the child bucket adopts
+    the parent bucket's fresh holder. -/
+def tableHolderNotShared : CrudReturns := { expectedReturns with persistSharesHolder := false }
+
+/-- Under that table a veto recorded before persisting (ProcessBeforeUpdate, the stage of the
+    system-entity constraint) is lost when an entity with child data is updated — through either store:
+    the veto is raised, the update reports success and is applied.  A plain parent entity is not affected. -/
+example :
+    (runOp { regsP := [], regsC := [], txListeners := 0, t := tableHolderNotShared, ixP := [[(.beforeUpdate, "c1")]] }
+      .none (.update .P "c1" ⟨"n9", [], none⟩ "") (beginTx c1Db Ctx.empty)).2 = .ok ∧
+    (runOp { regsP := [], regsC := [], txListeners := 0, t := tableHolderNotShared, ixP := [[(.beforeUpdate, "c1")]] }
+      .none (.update .P "c1" ⟨"n9", [], none⟩ "") (beginTx c1Db Ctx.empty)).1.raised = [.ixVeto .P 0] ∧
+    (runOp { regsP := [], regsC := [], txListeners := 0, t := tableHolderNotShared, ixP := [[(.beforeUpdate, "c1")]] }
+      .none (.update .P "c1" ⟨"n9", [], none⟩ "") (beginTx c1Db Ctx.empty)).1.db =
+        [("c1", { f := ⟨"n9", [], none⟩, child := some "k1" })] ∧
+    (runOp { regsP := [], regsC := [], txListeners := 0, t := tableHolderNotShared, ixP := [[(.beforeUpdate, "p1")]] }
+      .none (.update .P "p1" ⟨"n9", [], none⟩ "") (beginTx [("p1", { f := ⟨"n1", [], none⟩, child := none })] Ctx.empty)).2
+        = .err (.ixVeto .P 0) := by
+  decide +kernel
 
 end StorageModel.Properties.C07
